@@ -222,7 +222,18 @@ fn one_dialect<D: Dialect, M: Fn() -> D, R: FnOnce(&qrlew::ast::Query) -> Option
             } else if let Some(i) = (0..a.len()).find(|i| a[*i].0 != b[*i].0) {
                 fails.push(Fail::new(format!("C17|{name}|read_back_column_name|{}", if feat.starts_with("hostile") { feat } else { "ordinary" }), format!("column {i}: {:?}, read back {:?}\nemitted: {}\n{ctx}", a[i].0, b[i].0, text.text)));
             } else if let Some(i) = (0..a.len()).find(|i| a[*i].1 != b[*i].1) {
-                let kind = if type_kind(&a[i].1) == type_kind(&b[i].1) { "range" } else { "variant" };
+                // int / float / empty / null flips belong to the recorded non-determinism of numeric range propagation
+                let numericish = |k: &str| {
+                    let core = k.replace("option(", "").replace(')', "").replace('∪', "");
+                    ["int", "float", "∅", "null", "union"].contains(&core.as_str())
+                };
+                let kind = if type_kind(&a[i].1) == type_kind(&b[i].1) {
+                    "range"
+                } else if numericish(&type_kind(&a[i].1)) && numericish(&type_kind(&b[i].1)) {
+                    "numeric"
+                } else {
+                    "variant"
+                };
                 fails.push(Fail::new(
                     format!("C17|{name}|read_back_type_{kind}|{}->{}", type_kind(&a[i].1), type_kind(&b[i].1)),
                     format!("column {} has type {}, read back {}\nemitted: {}\n{ctx}", a[i].0, a[i].1, b[i].1, text.text),
